@@ -1289,7 +1289,8 @@ class Concatenate(CanBehaveLikeAVariable[T]):
         super().__post_init__()
         self._var_ = self
 
-    def _evaluate__(self, sources: Optional[Dict[int, HashedValue]] = None) -> Iterable[Dict[int, HashedValue]]:
+    def _evaluate__(self, sources: Optional[Dict[int, HashedValue]] = None,
+                    yield_when_false: bool = False) -> Iterable[Dict[int, HashedValue]]:
         sources = sources or {}
         if self._id_ in sources:
             yield sources
